@@ -16,7 +16,12 @@ RULE = ("correspondence as C07 (with partitions); monitor: implementation vs imp
 
 def suites(ctx):
     n = 140 if ctx["tier"] == "quick" else 1500
-    return [l1.run_suite("clock", clock_suite.gen, n, seed_names=("C09",), unit="clock")]
+    out = [l1.run_suite("clock", clock_suite.gen, n, seed_names=("C09",), unit="clock")]
+    from suites import runc
+    r = runc.run_custom(36 if ctx["tier"] == "quick" else 400, "C09")      # every third run: the model advances by a random sequence of run_steps_c calls
+    r["ties"] = "RunConcrete.v: whole concrete runs, by run_till_c and by random sequences of run_steps_c calls, against the implementation's tables"
+    out.append(r)
+    return out
 
 
 def monitor(ctx):
